@@ -2,18 +2,24 @@
   Executable model of the fee collector's `ForwardFees` pipeline
   (`contracts/liquidity_hub/fee_collector/src/{commands,contract}.rs`):
 
-    forward_fees (sender check, 4 self-submessages)
-      → CollectFees(vault factory)   : every vault sends all of its pending protocol fees
-      → CollectFees(pool factory)    : every *registered* pair sends each pending entry above the pair's
-                                        MINIMUM_COLLECTABLE_BALANCE and keeps the others on its ledger
-      → AggregateFees(vault factory) : for each vault asset ≠ distribution asset, ascending by label
-      → AggregateFees(pool factory)  : for each asset of a registered pair ≠ distribution asset:
+    forward_fees (sender check, 4 self-submessages, each for ONE PAGE of its factory's listing:
+                  `start_after: None, limit: Some(30)`)
+      → CollectFees(vault factory)   : every vault ON THE PAGE sends all of its pending protocol fees
+      → CollectFees(pool factory)    : every registered pair ON THE PAGE sends each pending entry above the
+                                        pair's MINIMUM_COLLECTABLE_BALANCE and keeps the others on its ledger
+      → AggregateFees(vault factory) : for each asset ≠ distribution asset of a vault on the page, ascending by label
+      → AggregateFees(pool factory)  : for each asset ≠ distribution asset of a registered pair on the page:
                                         balance > MINIMUM_AGGREGABLE_BALANCE ∧ a route is registered ∧ its
                                         simulation succeeds  ⇒ the WHOLE balance is swapped through the router
                                         (a failing swap fails the transaction); otherwise untouched
       → reply                        : take rate → DAO, the rest → fee distributor, `epoch.total` = the rest
 
-  Assets are indices `0 … n-1` in ascending label order (the order `TMP_ASSET_INFOS` iterates in);
+  A factory page (`read_pairs` / `read_vaults`) is the first `min(limit.unwrap_or(DEFAULT_LIMIT), MAX_LIMIT)`
+  entries of the factory's map in ascending STORAGE-KEY order — not creation order: a vault's key is
+  its asset's label, a pair's key is the two labels sorted and concatenated.  See "factory pages" below.
+
+  Assets are indices `0 … n-1` in ascending label order (the order `TMP_ASSET_INFOS` iterates in), the
+  labels are prefix-free (so the order of concatenated keys is the lexicographic order of index pairs);
   all assets are native (cw20 allowances are not modelled).  What the collector does not contain is a
   parameter: `router stage asset amount` = what the router paid for that swap, `acc pool side` = protocol
   fee that the aggregation swaps themselves left pending in a pair.  The router's *decisions* that the
@@ -72,33 +78,82 @@ def add (f : Nat → Nat) (i v : Nat) : Nat → Nat := fun j => if j = i then f 
 def PAIR_T : Nat := WW.Gen.PAIR_MINIMUM_COLLECTABLE_BALANCE
 def AGG_T : Nat := WW.Gen.COLLECTOR_MINIMUM_AGGREGABLE_BALANCE
 
-/-! ### collection -/
+/-! ### factory pages
 
-def collectVaults : List Vault → (Nat → Nat) → (Nat → Nat)
+  `terraswap_factory::state::read_pairs` / `vault_factory::state::read_vaults`:
+  `limit.unwrap_or(DEFAULT_LIMIT).min(MAX_LIMIT)` entries of `PAIRS` / `VAULTS` from the start of the
+  map, `Order::Ascending` by storage key.  An entry is on the page iff fewer than `page size` entries
+  have a smaller key (its *rank*); keys are unique (the factories refuse a second pair / vault for the
+  same assets), a removed pair has no entry. -/
+
+/-- `limit.unwrap_or(DEFAULT_LIMIT).min(MAX_LIMIT)` -/
+def pageSize (limit : Option Nat) (dflt mx : Nat) : Nat := min (limit.getD dflt) mx
+/-- page size of the pool factory's `Pairs { limit }` / the vault factory's `Vaults { limit }` -/
+def poolPage (limit : Option Nat) : Nat :=
+  pageSize limit WW.Gen.POOL_FACTORY_DEFAULT_LIMIT WW.Gen.POOL_FACTORY_MAX_LIMIT
+def vaultPage (limit : Option Nat) : Nat :=
+  pageSize limit WW.Gen.VAULT_FACTORY_DEFAULT_LIMIT WW.Gen.VAULT_FACTORY_MAX_LIMIT
+/-- the `limit` that all four self-calls of `forward_fees` pass (`limit: Some(30u32)`) -/
+def FWD_LIMIT : Option Nat := some WW.Gen.COLLECTOR_FORWARD_FEES_LIMIT
+
+/-- storage key of a pair in `PAIRS`: the two asset labels, sorted, concatenated -/
+def poolKey (p : Pool) : Nat × Nat := (min p.a p.b, max p.a p.b)
+def keyLt (x y : Nat × Nat) : Bool := decide (x.1 < y.1) || (x.1 == y.1 && decide (x.2 < y.2))
+
+/-- number of registered pairs whose key precedes `k` -/
+def poolRank (k : Nat × Nat) : List Pool → Nat
+  | [] => 0
+  | q :: qs => (if q.reg = true ∧ keyLt (poolKey q) k = true then 1 else 0) + poolRank k qs
+/-- number of vaults whose key (asset label) precedes asset `a` -/
+def vaultRank (a : Nat) : List Vault → Nat
+  | [] => 0
+  | w :: ws => (if w.asset < a then 1 else 0) + vaultRank a ws
+/-- number of entries in `PAIRS` -/
+def regCount : List Pool → Nat
+  | [] => 0
+  | q :: qs => (if q.reg = true then 1 else 0) + regCount qs
+
+/-- pair `p` is among the first `n` entries of the pool factory's listing of `ps` -/
+def poolListed (ps : List Pool) (n : Nat) (p : Pool) : Bool := p.reg && decide (poolRank (poolKey p) ps < n)
+/-- vault `v` is among the first `n` entries of the vault factory's listing of `vs` -/
+def vaultListed (vs : List Vault) (n : Nat) (v : Vault) : Bool := decide (vaultRank v.asset vs < n)
+
+/-! ### collection (`l` = "is on the factory page the message names") -/
+
+def vsent (l : Bool) (p : Nat) : Nat := if l = true then p else 0
+def vkept (l : Bool) (p : Nat) : Nat := if l = true then 0 else p
+
+def collectVaults (l : Vault → Bool) : List Vault → (Nat → Nat) → (Nat → Nat)
   | [], b => b
-  | v :: vs, b => collectVaults vs (add b v.asset v.pend)
+  | v :: vs, b => collectVaults l vs (add b v.asset (vsent (l v) v.pend))
 
-def vaultsAfter (vs : List Vault) : List Vault := vs.map fun v => { v with pend := 0 }
+def vaultsAfter (l : Vault → Bool) (vs : List Vault) : List Vault :=
+  vs.map fun v => { v with pend := vkept (l v) v.pend }
 
 /-- amount of a pair's pending entry that `collect_protocol_fees` sends (all of it above the threshold) -/
 def sent (reg : Bool) (p : Nat) : Nat := if reg ∧ PAIR_T < p then p else 0
 def kept (reg : Bool) (p : Nat) : Nat := if reg ∧ PAIR_T < p then 0 else p
 
-def collectPools : List Pool → (Nat → Nat) → (Nat → Nat)
+def collectPools (l : Pool → Bool) : List Pool → (Nat → Nat) → (Nat → Nat)
   | [], b => b
-  | p :: ps, b => collectPools ps (add (add b p.a (sent p.reg p.pa)) p.b (sent p.reg p.pb))
+  | p :: ps, b => collectPools l ps (add (add b p.a (sent (l p) p.pa)) p.b (sent (l p) p.pb))
 
-def poolsAfter (ps : List Pool) : List Pool :=
-  ps.map fun p => { p with pa := kept p.reg p.pa, pb := kept p.reg p.pb }
+def poolsAfter (l : Pool → Bool) (ps : List Pool) : List Pool :=
+  ps.map fun p => { p with pa := kept (l p) p.pa, pb := kept (l p) p.pb }
 
 /-- what the collection moves into the collector, per asset -/
-def vaultsCollected (i : Nat) : List Vault → Nat
+def vaultsCollected (l : Vault → Bool) (i : Nat) : List Vault → Nat
   | [] => 0
-  | v :: vs => (if v.asset = i then v.pend else 0) + vaultsCollected i vs
+  | v :: vs => (if v.asset = i then vsent (l v) v.pend else 0) + vaultsCollected l i vs
 
-def poolsCollected (i : Nat) : List Pool → Nat
+def poolsCollected (l : Pool → Bool) (i : Nat) : List Pool → Nat
   | [] => 0
-  | p :: ps => (if p.a = i then sent p.reg p.pa else 0) + (if p.b = i then sent p.reg p.pb else 0) + poolsCollected i ps
+  | p :: ps => (if p.a = i then sent (l p) p.pa else 0) + (if p.b = i then sent (l p) p.pb else 0) + poolsCollected l i ps
+
+/-- pending protocol fees of ALL vaults in asset `i` -/
+def vaultsPending (i : Nat) : List Vault → Nat
+  | [] => 0
+  | v :: vs => (if v.asset = i then v.pend else 0) + vaultsPending i vs
 
 /-! ### router registry decisions -/
 
@@ -132,11 +187,11 @@ def aggregate (dist : Nat) (router : Nat → Nat → Nat → Nat) (stage : Nat) 
       else .err                                   -- the swap message fails → the whole transaction fails
     else aggregate dist router stage ps routes is b
 
-/-- candidate assets of the two passes -/
-def vaultAssets (cfg : Cfg) (vs : List Vault) : List Nat :=
-  (List.range cfg.nassets).filter fun i => i != cfg.dist && vs.any fun v => v.asset == i
-def poolAssets (cfg : Cfg) (ps : List Pool) : List Nat :=
-  (List.range cfg.nassets).filter fun i => i != cfg.dist && ps.any fun p => p.reg && (p.a == i || p.b == i)
+/-- candidate assets of the two passes: the assets of the vaults / pairs on the factory page `l` -/
+def vaultAssets (cfg : Cfg) (l : Vault → Bool) (vs : List Vault) : List Nat :=
+  (List.range cfg.nassets).filter fun i => i != cfg.dist && vs.any fun v => l v && v.asset == i
+def poolAssets (cfg : Cfg) (l : Pool → Bool) (ps : List Pool) : List Nat :=
+  (List.range cfg.nassets).filter fun i => i != cfg.dist && ps.any fun p => l p && (p.a == i || p.b == i)
 
 /-! ### reply: take rate and transfer -/
 
@@ -163,16 +218,21 @@ structure Out where
   swappedIn : Nat
   swaps : List (Nat × Nat × Nat)
 
+/-- the vaults / pairs on the pages that `forward_fees` asks its factories for -/
+def fwdVaults (s : St) : Vault → Bool := vaultListed s.vaults (vaultPage FWD_LIMIT)
+def fwdPools (s : St) : Pool → Bool := poolListed s.pools (poolPage FWD_LIMIT)
+
 /-- `ForwardFees { epoch }` sent by `sender` for the epoch with id `epochId` -/
 def forwardFees (cfg : Cfg) (s : St) (sender epochId : Nat) (router : Nat → Nat → Nat → Nat)
     (acc : Nat → Nat → Nat) : Res Out :=
   if sender ≠ cfg.distributor then .err                         -- Unauthorized
   else
-    let b1 := collectPools s.pools (collectVaults s.vaults s.bal)
-    let ps1 := poolsAfter s.pools
-    match aggregate cfg.dist router 0 ps1 s.routes (vaultAssets cfg s.vaults) b1 with
+    let b1 := collectPools (fwdPools s) s.pools (collectVaults (fwdVaults s) s.vaults s.bal)
+    let ps1 := poolsAfter (fwdPools s) s.pools
+    match aggregate cfg.dist router 0 ps1 s.routes (vaultAssets cfg (fwdVaults s) s.vaults) b1 with
     | .ok (b2, in0, sw0) =>
-      match aggregate cfg.dist router 1 ps1 s.routes (poolAssets cfg ps1) b2 with
+      -- the collection changed neither keys nor registrations: the page is the one of `s.pools`
+      match aggregate cfg.dist router 1 ps1 s.routes (poolAssets cfg (fwdPools s) ps1) b2 with
       | .ok (b3, in1, sw1) =>
         let tb := b3 cfg.dist
         let take := takeOf s tb
@@ -182,7 +242,7 @@ def forwardFees (cfg : Cfg) (s : St) (sender epochId : Nat) (router : Nat → Na
                                dao := s.dao + take,
                                trh := if take = 0 then s.trh else s.trh ++ [(epochId, take)],
                                pools := addAcc acc 0 ps1,
-                               vaults := vaultsAfter s.vaults },
+                               vaults := vaultsAfter (fwdVaults s) s.vaults },
                 inflow := if rest = 0 then none else some rest,
                 take := take, base := tb, swappedIn := in0 + in1, swaps := sw0 ++ sw1 }
         else .err                                               -- bank send to the DAO cannot be covered
@@ -202,12 +262,12 @@ def forwardFees (cfg : Cfg) (s : St) (sender epochId : Nat) (router : Nat → Na
    * `AggregateFees { Contracts {..} }` — always (`InvalidContractsFeeAggregation`).
   Sent directly the messages carry no reply id: no take rate, no transfer to the distributor, no epoch. -/
 
-/-- the `FeesFor` values the harness sends (factory pages are `start_after: None, limit: 30`) -/
+/-- the `FeesFor` values the harness sends (factory pages are `start_after: None, limit`) -/
 inductive FeesFor where
-  /-- `Factory { vault_factory, Vault {..} }` -/
-  | vaultFactory
-  /-- `Factory { pool_factory, Pool {..} }` -/
-  | poolFactory
+  /-- `Factory { vault_factory, Vault { start_after: None, limit } }` -/
+  | vaultFactory (limit : Option Nat)
+  /-- `Factory { pool_factory, Pool { start_after: None, limit } }` -/
+  | poolFactory (limit : Option Nat)
   /-- `Factory { pool_factory, Vault {..} }`: the factory cannot answer the `Vaults` query -/
   | wrongFactory
   /-- `Contracts { [pair k as Pool] }` — the pair need not be listed by the factory -/
@@ -218,8 +278,12 @@ deriving Repr, DecidableEq
 
 /-- `ExecuteMsg::CollectFees { collect_fees_for }` sent by `sender` -/
 def collectFees (s : St) (_sender : Nat) : FeesFor → Res St
-  | .vaultFactory => .ok { s with bal := collectVaults s.vaults s.bal, vaults := vaultsAfter s.vaults }
-  | .poolFactory => .ok { s with bal := collectPools s.pools s.bal, pools := poolsAfter s.pools }
+  | .vaultFactory lim =>
+    .ok { s with bal := collectVaults (vaultListed s.vaults (vaultPage lim)) s.vaults s.bal,
+                 vaults := vaultsAfter (vaultListed s.vaults (vaultPage lim)) s.vaults }
+  | .poolFactory lim =>
+    .ok { s with bal := collectPools (poolListed s.pools (poolPage lim)) s.pools s.bal,
+                 pools := poolsAfter (poolListed s.pools (poolPage lim)) s.pools }
   | .wrongFactory => .err
   | .onePool k =>
     match s.pools[k]? with
@@ -239,8 +303,8 @@ def poolsPending (i : Nat) : List Pool → Nat
 /-- what a direct `CollectFees` for `f` moves into the collector, per asset -/
 def directCollected (s : St) (f : FeesFor) (i : Nat) : Nat :=
   match f with
-  | .vaultFactory => vaultsCollected i s.vaults
-  | .poolFactory => poolsCollected i s.pools
+  | .vaultFactory lim => vaultsCollected (vaultListed s.vaults (vaultPage lim)) i s.vaults
+  | .poolFactory lim => poolsCollected (poolListed s.pools (poolPage lim)) i s.pools
   | .wrongFactory => 0
   | .onePool k =>
     match s.pools[k]? with
@@ -253,8 +317,8 @@ def directCollected (s : St) (f : FeesFor) (i : Nat) : Nat :=
 
 /-- the candidate assets a direct `AggregateFees` stores in `TMP_ASSET_INFOS`; `none` = rejected -/
 def aggCands (cfg : Cfg) (s : St) : FeesFor → Option (List Nat)
-  | .vaultFactory => some (vaultAssets cfg s.vaults)
-  | .poolFactory => some (poolAssets cfg s.pools)
+  | .vaultFactory lim => some (vaultAssets cfg (vaultListed s.vaults (vaultPage lim)) s.vaults)
+  | .poolFactory lim => some (poolAssets cfg (poolListed s.pools (poolPage lim)) s.pools)
   | _ => none
 
 /-- `ExecuteMsg::AggregateFees { aggregate_fees_for }` sent by `sender`: one aggregation pass over the
